@@ -191,7 +191,7 @@ def twin_id(line, k):
     return " ".join([t[0], str(int(t[1]) + k * 10_000_000)] + t[2:])
 
 
-STATE_OPS = (" sset ", " sinc ", " smut ", " sget ", " sge ", " stc ")
+STATE_OPS = (" sset ", " sinc ", " smut ", " sdel ", " sget ", " sge ", " stc ")
 
 
 def twins_c10(cl, c):
@@ -251,7 +251,7 @@ def pure_domain(cl):
     """C06's domain: code blocks are pure functions of text, pos and their labels; no #{}, no throw/recover"""
     if " stc " in cl or " thr " in cl or " rec " in cl:
         return False
-    for w in (" calli", " even", " sget ", " gget ", " sge ", " gge ", " sset ", " sinc ", " smut ", " gset ", " ginc ", " gmut ", " at ", " panic "):
+    for w in (" calli", " even", " sget ", " gget ", " sge ", " gge ", " sset ", " sinc ", " smut ", " sdel ", " gset ", " ginc ", " gmut ", " gdel ", " at ", " panic "):
         if w in cl:
             return False
     return True
